@@ -34,8 +34,13 @@ LIST_FORMS = ["gopher", "gophers", "gplus", "gdollar", "http", "https", "wap", "
 RES_FORMS = ["gbang", "http", "https", "wap", "gemini", "spartan"]
 SEARCH_FORMS = ["gopher", "gophers", "gplus", "gdollar", "http", "https", "wap", "gemini", "spartan"]
 
-info_text = st.text("abcdefg XYZ019.,:;!?&<>'\"()-_+*", max_size=24).map(str.strip).filter(
-    lambda s: not s.startswith("=>") and not s.startswith("=:"))
+info_text = st.one_of(
+    st.text("abcdefg XYZ019.,:;!?&<>'\"()-_+*", max_size=24).map(str.strip),
+    st.text("abcdefg XYZ019.,:;!?&<>'\"()-_+*", max_size=24).map(str.strip),
+    # lines longer than a terminal row (a renderer may be tempted to fold them), with and without blanks to fold at
+    st.sampled_from(["A long line of an abstract that goes on and on, well past the seventy columns some displays have, to the very end",
+                     "x" * 120, ("word " * 40).strip()]),
+).filter(lambda s: not s.startswith("=>") and not s.startswith("=:"))
 label = st.text("abcdefXYZ019 &<>\"'é".replace("é", "\xc3\xa9"), min_size=1, max_size=12).map(str.strip).filter(bool)
 
 
